@@ -119,6 +119,11 @@ class TNCore(SessionBase):
             o.herm = bool(np.linalg.norm(M - M.conj().T) <= 1e-12 * max(nm, 1e-300)) and nm > 0
             o.norm2 = None
         o.scale = dn.abs_scale(r.A)
+        if not np.all(np.isfinite(o.dense)):
+            # non-finite entries (the producing operation has been judged already): nothing can be judged on it later
+            o.retired = True
+            o.dense = None
+            self.probe('object_with_nonfinite_entries_retired')
 
     def opnorm2(self, o):
         if o.norm2 is None:
